@@ -341,6 +341,19 @@ def rCBins (version binLimit : Nat) : P (List CBin × Option Stats) := fun bs =>
       | .error e => .error e
       | .ok ((bins, st), rest') => .ok ((bins.mergeSort leCBin, st), rest')
 
+/-- the auxiliary block: read only when its announced length is positive -/
+def rAux (na : Int) : P Bytes := fun bs =>
+  if na > 0 then rBytes na.toNat bs else .ok ([], bs)
+
+def rCRef (version binLimit : Nat) : P CRef := fun bs =>
+  match rCBins version binLimit bs with
+  | .ok ((bins, st), rest) => .ok (⟨bins, st⟩, rest)
+  | .error e => .error e
+
+/-- `csi.readIndices` -/
+def rCRefs (version binLimit : Nat) (n : Int) : P (List CRef) := fun bs =>
+  if n = 0 then .ok ([], bs) else counted n (rCRef version binLimit) bs
+
 /-- `csi.ReadFrom` -/
 def readCsi (bs : Bytes) : Except Fault CIndex :=
   match rBytes 3 bs with
@@ -362,16 +375,13 @@ def readCsi (bs : Bytes) : Except Fault CIndex :=
           match rI32 r4 with
           | .error e => .error e
           | .ok (na, r5) =>
-            match (if na > 0 then rBytes na.toNat r5 else .ok ([], r5)) with
+            match rAux na r5 with
             | .error e => .error e
             | .ok (aux, r6) =>
               match rI32 r6 with
               | .error e => .error e
               | .ok (n, r7) =>
-                match (if n = 0 then .ok ([], r7) else
-                        counted n (fun bs => match rCBins v.toNat (csiBinLimit dp.toNat) bs with
-                          | .ok ((bins, st), rest) => .ok ((⟨bins, st⟩ : CRef), rest)
-                          | .error e => .error e) r7) with
+                match rCRefs v.toNat (csiBinLimit dp.toNat) n r7 with
                 | .error e => .error e
                 | .ok (refs, r8) => match rUnmapped r8 with
                   | .error e => .error e
